@@ -349,7 +349,7 @@ def main():
     ncorp = run_corpus(ck, exe, work)
     ncorp += branch_shapes(ck, exe, work)
     nprogs = 6000 if quick else 120000
-    opts = dict(jmpi=True)
+    opts = dict(jmpi=True, xcalls=True)
     fails, nev, stats, pwork = progtie.run_programs(ck, exe, ENGINES, nprogs, opts=opts, per_batch=25 if quick else 60,
                                                     budget_s=420 if quick else 3000)
     if stats.get("skipped_batches"):
